@@ -18,21 +18,20 @@ def save_parameters(
     :param str file_name: output file path
     :param parameters: list of parameters
     :type parameters: list(Parameter)
-    :param bool safely: Create a temporary file if True
+    :param bool safely: write to ``file_name + '.new'`` first and atomically
+        replace ``file_name`` once the new file is complete
+    :param bool overwrite: kept for backward compatibility; an existing file is
+        always replaced atomically when ``safely`` is True
     """
-    if overwrite or (not safely or not os.path.lexists(file_name)):
-        # for var_name in self.optimizer.state_dict():
-        #     print(var_name, "\t", self.optimizer.state_dict()[var_name])
-        # torch.save(self.optimizer.state_dict(), 'checkpoint.json')
+    if not safely:
         with open(file_name, 'w') as fp:
             json.dump(parameters, fp, cls=ParameterEncoder, indent=2)
     else:
-        # torch.save(self.optimizer.state_dict(), 'checkpoint-new.json')
         with open(file_name + '.new', 'w') as fp:
             json.dump(parameters, fp, cls=ParameterEncoder, indent=2)
-        os.rename(file_name, file_name + '.old')
-        os.rename(file_name + '.new', file_name)
-        os.remove(file_name + '.old')
+        # atomic: file_name is always either the previous or the new checkpoint,
+        # never missing or truncated
+        os.replace(file_name + '.new', file_name)
 
 
 def pack_tensor(parameters: List[Parameter], tensor: torch.Tensor) -> None:
